@@ -6,6 +6,7 @@ import (
 	"io"
 	"math"
 	"os"
+	"sort"
 	"sync"
 	"time"
 
@@ -449,14 +450,17 @@ func (fs *fsMutable) ReadDir(
 		return
 	}
 
-	var i uint64 = 1
-	for _, c := range children {
-		i++
-		if i < uint64(offset) {
-			continue
-		}
-		child := *c
-		child.Offset = fuseops.DirOffset(i) // This is where dirOffset matters..
+	// Children are listed by inode: a listing resumed at the offset of the last entry returned carries on
+	// with the next one, whatever the order in which the map hands out its entries.
+	inodes := make([]fuseops.InodeID, 0, len(children))
+	for inode := range children {
+		inodes = append(inodes, inode)
+	}
+	sort.Slice(inodes, func(i, j int) bool { return inodes[i] < inodes[j] })
+
+	for i := offset; i < len(inodes); i++ {
+		child := *children[inodes[i]]
+		child.Offset = fuseops.DirOffset(i + 1) // This is where dirOffset matters..
 		n := fuseutil.WriteDirent(op.Dst[op.BytesRead:], child)
 		if n == 0 {
 			break
